@@ -207,8 +207,64 @@ pub fn run(env: &Env) -> Report {
     });
     let mut rep = Report::new("c12");
     for r in reps { rep.merge(r); }
+    rep.merge(class_sweep(env));
     rep.exhaustive = true;
     rep.notes.push(format!("all key histories of length <= {} over {} class representatives + backspace under the 16 settings of (auto vowel, auto chandrabindu, traditional joining, old reph), plus random longer histories", maxlen, keys.len()));
+    rep
+}
+
+/// class sweep: the rules are selected by the CLASS of the previous character, and a class is a set of code points — so every
+/// assigned code point of the Bengali block (not one representative per class), the joiners and a few ASCII marks and letters is
+/// typed as the previous character, followed by every kind of value the rules distinguish, under the 16 helper settings
+fn class_sweep(env: &Env) -> Report {
+    let mut prevs: Vec<String> = vec![];
+    for cp in 0x0980u32..=0x09FF { if let Some(c) = char::from_u32(cp) { if !matches!(cp, 0x0984 | 0x098D | 0x098E | 0x0991 | 0x0992 | 0x09A9 | 0x09B1 | 0x09B3..=0x09B5 | 0x09BA | 0x09BB | 0x09C5 | 0x09C6 | 0x09C9 | 0x09CA | 0x09CF..=0x09D6 | 0x09D8..=0x09DB | 0x09DE | 0x09E4 | 0x09E5 | 0x09FF) { prevs.push(c.to_string()); } } }
+    for c in ["\u{200C}", "\u{200D}", "-", "(", "\"", ":", "?", "a", "Z", "5", " "] { prevs.push(c.to_string()); }
+    let vals: Vec<String> = ["\u{09BE}", "\u{09BF}", "\u{09C0}", "\u{09C1}", "\u{09C2}", "\u{09C3}", "\u{09C7}", "\u{09C8}", "\u{09CB}", "\u{09CC}", "\u{09CD}", "\u{09D7}", "\u{09CD}\u{09AF}", "\u{09B0}\u{09CD}", "\u{0981}", "\u{0995}", "\u{09AF}", "\u{0985}"].iter().map(|s| s.to_string()).collect();
+    // layouts: the previous characters in chunks, each chunk together with all the values
+    let room = 90 - vals.len();
+    let chunks: Vec<Vec<String>> = prevs.chunks(room).map(|c| c.to_vec()).collect();
+    let sets = settings(None);
+    // one layout file per chunk, written once (the units below run in parallel)
+    let layouts: Vec<(Vec<String>, String, Vec<(u16, u8)>)> = chunks.iter().enumerate().map(|(ci, ch)| {
+        let mut all: Vec<String> = vals.clone(); for p in ch { if !all.contains(p) { all.push(p.clone()); } }
+        let (lpath, how) = write_values(&env.a.out, &format!("sweep{}", ci), &all);
+        (all, lpath.to_str().unwrap().to_string(), how)
+    }).collect();
+    let reps = par_map(sets.len() * chunks.len(), |ui| {
+        let o = sets[ui % sets.len()]; let ci = ui / sets.len();
+        let mut rep = Report::new("c12");
+        let (all, lp, how) = (&layouts[ci].0, layouts[ci].1.clone(), &layouts[ci].2);
+        let xdg = env.fresh_xdg(&format!("c12-sweep-{}", ui));
+        let mut t = env.trace(&format!("c12.sweep{}", ui));
+        t.layout(&lp, &env.tsv);
+        t.line(&format!("case c12-sweep-{}", ui));
+        let mut s = Sess::new(&mut t, &env.data, "c", &lp, o, &xdg).expect("context");
+        let key_of = |v: &String| how[all.iter().position(|x| x == v).unwrap()];
+        for p in &chunks[ci] {
+            for v in &vals {
+                let (pc, pm) = key_of(p); let (vc, vm) = key_of(v);
+                let ob = s.key(&mut t, pc, pm, 0);
+                if ob == Obs::Panic { rep.violation("C01", "panic", format!("key value {:?} on an empty composition panicked", p), json!({"stream": "c12", "layout": lp, "opts": o.bits_str(), "events": s.events})); s.events.clear(); continue; }
+                let before = pre_text(&ob);
+                let ob = s.key(&mut t, vc, vm, 0);
+                if ob == Obs::Panic { rep.violation("C01", "panic", format!("text {:?} + key value {:?} panicked", before, v), json!({"stream": "c12", "layout": lp, "opts": o.bits_str(), "events": s.events})); s.events.clear(); continue; }
+                let after = pre_text(&ob);
+                let evs = s.events.clone(); let ob2 = o.bits_str(); let lp2 = lp.clone();
+                // the first key is held to the rules too (empty text before it)
+                check_key(&mut rep, &o, "", p, &before, &{ let (e, b, l) = (evs.clone(), ob2.clone(), lp2.clone()); move || json!({"stream": "c12", "layout": l, "opts": b, "events": e[..1].to_vec()}) });
+                check_key(&mut rep, &o, &before, v, &after, &move || json!({"stream": "c12", "layout": lp2, "opts": ob2, "events": evs}));
+                rep.eval(Some(&format!("sweep|{}|{}|{}", o.bits_str(), p, v)));
+                rep.count("class-sweep-pair");
+                s.finish(&mut t); s.events.clear();
+            }
+        }
+        t.flush();
+        rep
+    });
+    let mut rep = Report::new("c12");
+    for r in reps { rep.merge(r); }
+    rep.notes.push(format!("class sweep: {} previous characters (every assigned code point of the Bengali block, joiners, ASCII marks/letters) x {} kinds of value x 16 settings", prevs.len(), vals.len()));
     rep
 }
 
@@ -316,6 +372,28 @@ pub fn run_c14(env: &Env) -> Report {
                 rep.count("random-history-option-on");
             }
         }
+        // an independent vowel typed with its SIGN key (automatic vowel forming on): at the start, after punctuation, after a vowel
+        // (sign). The left-standing signs wait here too, and what follows is another sign, not a consonant — both orders use the
+        // same keys, so both contexts must show the same text
+        if base.vowel {
+            for (pa, pb) in [("", ""), ("(", "("), ("m", "m"), (":", ":"), ("o", "o"), ("ka", "ka"), ("ik", "ki"), ("kaik", "kaki")] {
+                for k1 in ['i', 'E', 'O', 'a', 'u'] {
+                    for k2 in ['a', 'I', 'u', 'U', 'R'] {
+                        let ka: String = format!("{}{}{}", pa, k1, k2); let kb: String = format!("{}{}{}", pb, k1, k2);
+                        let mut ta = String::new(); let mut tb = String::new();
+                        for k in ka.chars() { ta = pre_text(&a.key(&mut t, code_for_char(k).unwrap(), 0, 0)); }
+                        for k in kb.chars() { tb = pre_text(&b.key(&mut t, code_for_char(k).unwrap(), 0, 0)); }
+                        rep.eval(Some(&format!("{}|vs|{}", on.bits_str(), ka)));
+                        rep.count("vowel-by-sign-key");
+                        if ta != tb {
+                            rep.violation("C14", "orders-differ", format!("opts {}: vowels typed with their sign keys: typewriter-order keys {:?} give {:?}, Unicode-order keys {:?} give {:?}", base.bits_str(), ka.chars().map(|k| bind[&k]).collect::<Vec<_>>(), ta, kb.chars().map(|k| bind[&k]).collect::<Vec<_>>(), tb),
+                                json!({"stream": "c14", "layout": lp, "opts_on": on.bits_str(), "opts_off": off.bits_str(), "typewriter_keys": ka, "unicode_keys": kb}));
+                        }
+                        a.finish(&mut t); b.finish(&mut t);
+                    }
+                }
+            }
+        }
         // pending-sign clauses: a left sign alone is not shown, is a session, and one backspace discards it
         for k in ['i', 'E', 'O'] {
             for pre in ["", "k", "ka", "o"] {
@@ -371,7 +449,10 @@ pub fn run_c13(env: &Env) -> Report {
                 before = pre_text(&ob);
             }
             let ob = if traced { s.key(t, reph, 0, 0) } else { s.imp.key(reph, 0, 0) };
-            if ob == Obs::Panic { rep.violation("C13", "reph-panic", format!("{:?} + reph panicked", before), json!({"stream": "c13", "opts": o.bits_str(), "keys": hist.iter().map(|&k| keys[k].0).collect::<String>() + "z"})); return; }
+            if ob == Obs::Panic {
+                let ctx = json!({"stream": "c13", "layout": lp.clone(), "opts": o.bits_str(), "keys": hist.iter().map(|&k| keys[k].0).collect::<String>() + "z"});
+                rep.violation("C13", "reph-panic", format!("{:?} + reph panicked", before), ctx.clone());
+                rep.violation("C01", "panic", format!("fixed method, old-style reph: {:?} + reph key panicked", before), ctx); return; }
             let after = pre_text(&ob);
             let ks: String = hist.iter().map(|&k| keys[k].0).collect::<String>() + "z";
             let ob2 = o.bits_str(); let lp2 = lp.clone();
